@@ -68,10 +68,20 @@ def find_element_that_meets_mh(stack, metahandler):
     raise IndexError
 
 
+def ordered_symbols(g: Grammar) -> list[type]:
+    """The symbols the stack machine works with, in an order that is the same in every process (the genotype indexes into this list,
+    and the symbols come out of sets, whose iteration order depends on memory addresses): by printed form; symbols that print alike --
+    two refinement objects with equal parameters, such as `Annotated[int, IntRange(0, 9)]` written in two fields, are different
+    symbols -- in the order in which a walk over the productions (by printed form) and their fields first mentions them."""
+    first_mention: dict[type, int] = {}
+    for t in sorted(g.get_all_symbols()[2], key=str):
+        for x in g.collect_types(t):
+            first_mention.setdefault(x, len(first_mention))
+    return sorted(first_mention, key=lambda x: (str(x), first_mention[x]))
+
+
 def create_tree_using_stacks(g: Grammar, r: ListWrapper, failures_limit=100):
-    # (sorted: the symbols come out of a set, whose iteration order differs between processes, and
-    # the genotype indexes into this list)
-    all_stack_types = sorted(g.get_all_mentioned_symbols(), key=str)
+    all_stack_types = ordered_symbols(g)
 
     stacks: dict[type, list[Any]] = {k: [] for k in all_stack_types}
 
